@@ -287,6 +287,37 @@ def rand_bop(rng, nid, small, neg=False):
     return ["snap"]
 
 
+def pull_case(rng, adv_ops):
+    """postpone a call (delay(+a), or reset() to later than its time), then pull it back with delay(-b), b >, ==, < a:
+    the outstanding postponement must be folded into the new time; also from inside a running call"""
+    k = rng.choice([0, 1, 3])
+    t = [rng.choice([4, 5, 8, 16]) for _ in range(rng.randrange(2, 5))]
+    ops = [["later", x] for x in t]
+    if rng.random() < 0.5:
+        ops += adv_ops(rng.choice([0, 1, 2]))
+    script = []
+    for _ in range(rng.randrange(1, 4)):
+        i = rng.randrange(len(t))
+        a = rng.choice([1, 2, 3, 6])
+        script.append(["delay", i, a] if rng.random() < 0.6 else ["reset", i, t[i] + a])
+        b = rng.choice([a + 1, a + 2, a, a - 1, 2 * a + 3])
+        if rng.random() < 0.3:
+            script.append(["delay", i, 1])
+        script.append(["delay", i, -b])
+        if rng.random() < 0.3:
+            script.append(["delay", i, -1])
+    bodies = []
+    if rng.random() < 0.4:                      # do it from inside the first call that runs
+        cut = rng.randrange(len(script) + 1)
+        bodies = [script[cut:]] + [[] for _ in t[1:]]
+        bodies[0] = [b for b in bodies[0] if b[1] != 0] or [["snap"]]
+        script = script[:cut]
+    ops += script + [["snap"]]
+    for step in (1, 1, 2, 1, 4, 8, 16):
+        ops += adv_ops(step) + [["snap"]]
+    return {"k": k, "ops": ops, "bodies": bodies}
+
+
 def rand_case(rng, nops, neg=False, adv_name="adv"):
     k = rng.choice([0, 1, 3, 10, 20])
     raise_p = rng.choice([0.0, 0.0, 0.2, 0.5])
@@ -318,7 +349,7 @@ def rand_case(rng, nops, neg=False, adv_name="adv"):
 
 
 ALPHABET = [["later", 0], ["later", 1], ["later", 2], ["adv", 1], ["cancel", 0], ["reset", 1, 1], ["reset", 0, 0],
-            ["delay", 0, 1], ["delay", 1, -1]]
+            ["delay", 0, 1], ["delay", 1, -1], ["delay", 0, -2], ["reset", 0, 3]]
 # body table used by the exhaustive part: call 0 schedules an immediate call and pulls call 1 to "now";
 # call 1 cancels call 2 and pushes call 0; call 2 schedules two calls for the same time and resets the older
 EXH_BODIES = [[["later", 0], ["reset", 1, 0]], [["cancel", 2], ["delay", 0, 1]],
@@ -333,7 +364,7 @@ def gen(rng, tier):
     depth = 4 if tier == "quick" else 5
     for n in range(1, depth + 1):
         for word in itertools.product(range(len(ALPHABET)), repeat=n):
-            if n == depth and rng.random() > (0.05 if tier == "quick" else 0.06):
+            if n == depth and rng.random() > (0.03 if tier == "quick" else 0.03):
                 continue
             ops = [ALPHABET[a] for a in word] + [["snap"], ["adv", 1], ["snap"], ["adv", 3], ["snap"]]
             cases.append({"k": 1, "ops": ops, "bodies": [EXH_BODIES, [], EXH_BODIES_RAISE][word[0] % 3]})
@@ -341,6 +372,8 @@ def gen(rng, tier):
         cases.append(rand_case(rng, rng.randrange(5, 60)))
     for _ in range(70 if tier == "quick" else 1000):      # negative delays / advances: the code accepts them
         cases.append(rand_case(rng, rng.randrange(5, 40), neg=True))
+    for _ in range(120 if tier == "quick" else 2500):     # postponed, then pulled back by a negative delay()
+        cases.append(pull_case(rng, lambda a: [["adv", a]]))
     return cases
 
 
@@ -357,6 +390,9 @@ def corpus():
         {"k": 1, "ops": [["later", 4], ["later", 6], ["delay", 1, -3], ["snap"], ["adv", 4], ["adv", 2]],
          "bodies": []},
         {"k": 0, "ops": [["adv", 0], ["snap"]], "bodies": []},
+        # a postponement is outstanding when a negative delay() arrives: 5 + 2 - 3 = 4 (not 5 - 3); reset-later, then pull
+        {"k": 0, "ops": [["later", 5], ["later", 3], ["delay", 0, 2], ["delay", 0, -3], ["snap"], ["adv", 2], ["snap"], ["adv", 2],
+                         ["snap"], ["later", 4], ["reset", 2, 9], ["delay", 2, -6], ["snap"], ["adv", 3], ["snap"]], "bodies": []},
         # a call function raises: advance() propagates, the other due calls wait for the next advance
         {"k": 0, "ops": [["later", 5], ["later", 5], ["later", 5], ["adv", 5], ["snap"], ["adv", 0], ["snap"]],
          "bodies": [[["later", 0], ["raise"], ["cancel", 1]], [["raise"]]]},
@@ -425,11 +461,11 @@ SPEC = Spec(
     model_equal=lambda c, impl_obs, model_obs: digest(impl_obs) == model_obs,
     nontrivial=lambda c, o: "(r" in o,
     histogram=histogram,
-    rule="every history of length <= 4 (quick; the longest length sampled 5%) / <= 5 (thorough, longest 6%) over a "
-         "9-letter alphabet {callLater 0/1/2, advance 1, cancel #0, reset #1 +1, reset #0 +0, delay #0 +1, delay #1 -1} "
+    rule="every history of length <= 4 (quick; the longest length sampled 3%) / <= 5 (thorough, longest 3%) over a "
+         "11-letter alphabet {callLater 0/1/2, advance 1, cancel #0, reset #1 +1, reset #0 +0, reset #0 +3, delay #0 +1, delay #0 -2, delay #1 -1} "
          "with a fixed table of call bodies (nested callLater/reset/cancel/delay), without, and with a table whose functions raise, each followed by "
          "snapshots and two advances; random histories of 5-60 operations with random body tables, scales 2^0..2^-20, "
-         "tie-heavy small delays and 2^30-size delays; a separate stream with negative delays/advances; "
+         "tie-heavy small delays and 2^30-size delays; a separate stream with negative delays/advances; a stream that postpones a call (delay(+a) / reset to later) and then pulls it back with delay(-b), b >, =, < a, also from inside a running call; "
          "non-trivial = at least one call ran; distinct by (case, observation)",
     trusted=["hand-written model coq/C09/Model.v + coq/Lib/TimersCall.v (tied by this correspondence run only)",
              "Python list.sort is stable (the model uses insertion sort; any stable sort gives the same list)",
